@@ -756,6 +756,12 @@ func (p *Prog) goAwayReturn(r *ssa.Return) bool {
 	if cl["Reset"] || cl["Foreign"] {
 		return false
 	}
+	for c := range cl {
+		if strings.HasPrefix(c, "Param#") {
+			// the function's own argument: unknown without its caller
+			return false
+		}
+	}
 	if cl["Nil"] {
 		// acceptable only when the value is known non-nil here (return err under err != nil)
 		v := p.resolveSpill(r, len(r.Results)-1)
@@ -783,11 +789,14 @@ func ruleHdrMustDecode(p *Prog, r *Out) {
 		r.undecided("stream loop", "?", "the frame receive region of handleStreams was not found")
 		return
 	}
-	r.fn("(*serverConn).handleStreams", "(*serverConn).handleFrame", "(*serverConn).handleHeaderFrame")
+	r.fn("(*serverConn).handleStreams", "(*serverConn).handleFrame", "(*serverConn).handleHeaderFrame", "(*serverConn).discardFrame")
 	kinds := uint16(1<<1 | 1<<9)
 	what := "has not fed its header block to the HPACK decoder and the connection continues: every later header block decodes against a stale dynamic table"
 	vs := p.runOPA(opaSpec{fn: fn, entry: entry, fr: fr, kinds: kinds, loopHead: head,
-		discharge: func(in ssa.Instruction) bool { return p.isCallTo(in, "(*serverConn).handleFrame") },
+		// discardFrame is for frames whose stream is gone; its own slice is judged below
+		discharge: func(in ssa.Instruction) bool {
+			return p.isCallTo(in, "(*serverConn).handleFrame", "(*serverConn).discardFrame")
+		},
 		terminate: p.terminatesConn,
 		returnOK:  func(*ssa.Return) bool { return true },
 	})
@@ -799,6 +808,9 @@ func ruleHdrMustDecode(p *Prog, r *Out) {
 	for _, sl := range []struct{ name, discharge string }{
 		{"(*serverConn).handleFrame", "(*serverConn).handleHeaderFrame"},
 		{"(*serverConn).handleHeaderFrame", "(*HPACK).nextField"},
+		// skipFields is a decode loop of its own (block-remainder-decoded,
+		// no-stream-error-inside-decode-loop)
+		{"(*serverConn).discardFrame", "(*serverConn).skipFields"},
 	} {
 		f := p.ssaFunc(sl.name)
 		if f == nil {
@@ -923,7 +935,7 @@ func ruleDataMustCredit(p *Prog, r *Out) {
 		r.fn("(*serverConn).handleStreams", "(*serverConn).handleFrame")
 		vs := p.runOPA(opaSpec{fn: fn, entry: entry, fr: fr, kinds: kinds, loopHead: head,
 			discharge: func(in ssa.Instruction) bool {
-				return p.isCallTo(in, "(*serverConn).handleFrame") || isAcc(srvAcc)(in)
+				return p.isCallTo(in, "(*serverConn).handleFrame", "(*serverConn).discardFrame") || isAcc(srvAcc)(in)
 			},
 			terminate: p.terminatesConn,
 			returnOK:  func(*ssa.Return) bool { return true },
@@ -948,6 +960,26 @@ func ruleDataMustCredit(p *Prog, r *Out) {
 			if len(vs) == 0 {
 				r.ok("(*serverConn).handleFrame DATA slice", p.pos(f.Pos()), "no stream-scoped return before consumeRecvWindow")
 			}
+		}
+		// frames whose stream is gone
+		if f := p.ssaFunc("(*serverConn).discardFrame"); f != nil {
+			var frp ssa.Value
+			for _, pa := range f.Params {
+				if p.isFrameHeaderPtr(pa.Type()) {
+					frp = pa
+				}
+			}
+			vs := p.runOPA(opaSpec{fn: f, fr: frp, kinds: kinds,
+				discharge: isAcc(srvAcc),
+				terminate: p.terminatesConn,
+				returnOK:  func(*ssa.Return) bool { return false },
+			})
+			r.reportOPA(p, "(*serverConn).discardFrame", vs, what)
+			if len(vs) == 0 {
+				r.ok("(*serverConn).discardFrame DATA slice", p.pos(f.Pos()), "every return for a DATA frame has passed consumeConnRecvWindow")
+			}
+		} else {
+			r.undecided("(*serverConn).discardFrame", "?", "no longer resolves")
 		}
 	}
 	// client
